@@ -84,7 +84,8 @@ struct VecWorld : World {
         return R_ok(encs(got));
     }
     Result sut_apply(const Op &op, Ctx &x) override {
-        size_t n = q->size(q); int idx = index_of(op.a, n, mt); int api = op.d & 7; if (api > 2) api = 2;
+        size_t n = mt ? 0 : q->size(q);      // size() reads the length without the lock: not for thread programs (indexes are absolute there)
+        int idx = index_of(op.a, n, mt); int api = op.d & 7; if (api > 2) api = 2;
         switch (op.k) {
         case V_ADD: {
             Bytes v = value(op); CallerBuf vb(v); bool ok;
